@@ -28,7 +28,8 @@
 (* (Ords), and the invariants of Boxcar.tla - including RaceFree, the      *)
 (* happens-before abstraction - are evaluated on every conforming state.   *)
 (* Operations the model does not describe (a fill callback panicking inside *)
-(* extend, snapshot beyond the reserved range) end the validation of that  *)
+(* extend, snapshot beyond the reserved range, exhaustion of the index      *)
+(* space, whole-vector memory balance) end the validation of that          *)
 (* run (counted, not drift).                                               *)
 (* A line no action accepts is MODEL-DRIFT; the rest of the run is skipped.*)
 (***************************************************************************)
@@ -82,7 +83,7 @@ OpOf ==
 
 \* outside the model: a fill callback that panics in the middle of extend; snapshot(start) beyond the reserved range
 \* (answered by the documented assertion)
-Unsupported == \/ Ev.site = "call" /\ Ev.api = "extend_panic"
+Unsupported == \/ Ev.site = "call" /\ Ev.api \in {"extend_panic", "extend_huge", "push_checked", "mem_balance"}
                \/ Ev.site = "atomic" /\ Ev.loc = "inflight" /\ Ev.op = "load" /\ pc[Me] = "s_cnt" /\ Ev.val < lc[Me].idx
 
 ApiCall ==
